@@ -10,13 +10,23 @@ CLAIMED = {
          'Trusted: Coq kernel + vm_compute; hand-written model of rdp.mapping/compute_removed_points (integers only) validated by the correspondence run; harness. Counts in removed tables must be integral (checked).',
          'Coq proof (induction over index lists, lia) + in-Coq differential correspondence', '4/C07'),
 }
+# further claims come from the workers' reports/<id>.manifest.json
+import glob
+for f in sorted(glob.glob(os.path.join(here, 'reports', 'C*.manifest.json'))):
+    pid = os.path.basename(f).split('.')[0]
+    try:
+        r = json.load(open(f))
+        CLAIMED[pid] = (r['text'], r['note'], r['technique'], '4/' + pid)
+    except Exception as e:
+        print('bad report', f, e)
+NOT_READY = set(json.load(open(os.path.join(here, 'tools', 'not_ready.json')))) if os.path.exists(os.path.join(here, 'tools', 'not_ready.json')) else set()
 PENDING_REASON = 'check not built yet in this round (model and theorem planned in DESIGN.md section 4); not claimed until its check exists'
 
 checks = []
 na = []
 for p in props:
     pid = p['id']
-    if pid in CLAIMED and os.path.exists(os.path.join(here, 'harness', pid.lower() + '.py')):
+    if pid in CLAIMED and pid not in NOT_READY and os.path.exists(os.path.join(here, 'harness', pid.lower() + '.py')) and os.path.exists(os.path.join(here, 'coq', 'Props', pid + '.v')):
         text, note, tech, ref = CLAIMED[pid]
         checks.append({
             'property_id': pid,
